@@ -97,7 +97,8 @@ def gen_plan(seed, tier):
     # an ill-conditioned (but strictly positive definite) array prior
     params["prior"] = {"$arr": dict(kind="spd", seed=r2.randrange(10**6), d=desc["d"],
                                     cond=r2.choice([1e6, 1e9, 1e10, 1e11, 1e12]))}
-  plan = dict(run_seed=seed, dataset=desc, params=params, config=config,
+  hist_scale = r2.choice([1.0, 1.0, 3.0, 5.0, 20.0, 0.2])
+  plan = dict(run_seed=seed, dataset=desc, params=params, config=config, history_scale=hist_scale,
               frac=r.choice([0.1, 0.3, 0.5]) if config != "natural" else r.choice([3.0, 10.0, 100.0]),
               ambient=r.randrange(10**6), history=r.random() < 0.25)
   if config == "stub":
@@ -158,7 +159,9 @@ def run_plan(plan):
       try:
         with world.observed():
           D2 = make_data(dict(plan["dataset"], seed=plan["dataset"]["seed"] + 1))
-          ml.SDML.fit(est, D2.S[D2.pairs_idx], D2.pairs_y)
+          # the earlier life of the object: other pairs, possibly in other units
+          hs = float(plan.get("history_scale", 1.0))
+          ml.SDML.fit(est, D2.S[D2.pairs_idx] * hs, D2.pairs_y)
       except Exception:
         pass
       cov["with_history"] += 1
@@ -200,6 +203,21 @@ def run_plan(plan):
         if plan["config"] == "natural":
           nontrivial = True
         else:
+          if plan["history"]:
+            # was it the input, or the object's earlier life?  A brand-new
+            # estimator with the same parameters decides.
+            fresh = ml.SDML(**p)
+            try:
+              with world.observed():
+                fresh.fit(pairs.copy(), y.copy())
+              fresh_ok = True
+            except Exception:
+              fresh_ok = False
+            cov["runtime_error_with_history_rechecked"] += 1
+            if fresh_ok:
+              raise Violation("failure_clause", "runtime_error_only_with_history",
+                              "fit raised RuntimeError on an object with an earlier fit, but a new SDML with "
+                              "the same parameters solves the same (certified positive definite) problem")
           inconclusive.append("runtime_error_on_certified_input")
         return _done(events, violation, cov, inconclusive, shape, nontrivial)
       raise Violation("failure_clause", "config=%s,leaked=%s" % (plan["config"], outcome[4:]),
